@@ -27,6 +27,7 @@ from ..pyvc.prove import Contract
 ENC = 'cirbo/circuits_db/circuits_encoding.py'
 # gate types whose value does not depend on the order of their (two) operands: symmetric types and the constants
 ORDER_FREE = ('AND', 'OR', 'NAND', 'NOR', 'XOR', 'NXOR', 'ALWAYS_TRUE', 'ALWAYS_FALSE')
+INPUT_OUTCOME = set()          # what _encode_gate does with an INPUT gate in the tree under verification: {'returns'} / {'raises'}
 I = z3.IntSort()
 B = z3.BoolSort()
 
@@ -174,6 +175,9 @@ class EncodeGate(Contract):
         log, ops, idf, w = st['wr'].log, st['ops'], st['idf'], st['w']
         yield ('identifier-map-only-read', z3.BoolVal(not st['ids'].written))
         if self.t == 'INPUT':
+            # who skips the inputs - this function or its caller - is not part of the property: both outcomes are accepted here and
+            # recorded, and the contract of _encode_circuit_body (c16_body.py) uses the recorded one for its calls
+            INPUT_OUTCOME.add('returns')
             yield ('input-gates-write-nothing', z3.BoolVal(len(log) == 0))
             return
         yield ('accepted-only-with-the-decoders-arity', z3.BoolVal(self.t in st['table'] and self.k == self.arity()), {'witness': 'wrong-arity-accepted'})
@@ -201,7 +205,11 @@ class EncodeGate(Contract):
     def on_raise(self, it, ctx, exc, st):
         n = exc.cls.name if isinstance(exc, Obj) else repr(exc)
         if n == 'CircuitEncodingError':
-            yield ('raise/unsupported-type-or-arity', z3.BoolVal(self.t != 'INPUT' and (self.t not in st['table'] or self.k != self.arity())), {'raised': n})
+            if self.t == 'INPUT':
+                INPUT_OUTCOME.add('raises')
+                yield ('raise/nothing-written', z3.BoolVal(len(st['wr'].log) == 0))
+                return
+            yield ('raise/unsupported-type-or-arity', z3.BoolVal(self.t not in st['table'] or self.k != self.arity()), {'raised': n})
             yield ('raise/nothing-written', z3.BoolVal(len(st['wr'].log) == 0))
         else:
             yield ('no-other-raise', z3.BoolVal(False), {'raised': n, 'witness': 'raises-' + n})
@@ -338,7 +346,7 @@ def replay_gate(t, k):
     try:
         E._encode_gate(w, Gate('g', getattr(G, t), ops), ids, 7)
     except E.CircuitEncodingError:
-        if t != 'INPUT' and k != arity:
+        if t == 'INPUT' or k != arity:
             return True, f'{t} with {k} operands is rejected by the encoder'
         return False, f'_encode_gate rejects {t}{ops}'
     except Exception as e:       # noqa
